@@ -268,7 +268,7 @@ def run(tier, seed):
     if not mc["ok"]:
         raise vlib.InfraError("BB design check failed:\n" + mc["out"][-3000:])
     bld = vlib.build("dbg")
-    nwalk = 60 if tier == "quick" else 600
+    nwalk = 60 if tier == "quick" else 1500
     violations, nacc, states, nrej, execs_all = [], 0, 0, 0, []
     for np_ in (1, 2, 3):
         ws = c05.walks("BB_MC.tla", "cfg/BB_sim%d.cfg" % np_, nwalk, 12, seed + 60 + np_)
